@@ -49,6 +49,8 @@ THEOREMS = [
     # the per-setup rank condition (CovSetup.gam / DatSetup.gam) derived from the property's premises
     "PV.C03Excite.C03_setup_gam_of_premises",
     "PV.C01Excite.C01_excited_of_modal",
+    "PV.C01Excite.C01_observable_of_modal",
+    "PV.C01Excite.C01_invertible_of_modal",
     "PV.C03E2E.Ex.cov0",
     "PV.C03E2E.Ex.cov1",
     "PV.C03E2E.Ex.hqr",
